@@ -1,6 +1,7 @@
 (* model side of the C10 correspondence.
    One case per line, whitespace separated tokens:
-     <id> <sheet> N <count> <key>* M <npat> <bits>* Q <nq> <query>*
+     <id> V<0|1> <sheet> N <count> <key>* M <npat> <bits>* Q <nq> <query>*
+     V1: findTemplate tests a table entry with its own alternative (GenTmpl.gen_per_alternative), V0: with the whole pattern
      sheet := S <nitems> item* <nimports> sheet*
      item  := T <id> <mode|-> <prio|-> <nalts> alt*  |  I <n> item*
      alt   := <patid> <tname> <ttype> <score>     tname: t c r p n a N<int>; ttype: e a y o; score 0..4
@@ -60,6 +61,7 @@ let () =
             let imps = times m sheet in
             Sheet (items, imps)
           | s -> raise (Bad ("sheet " ^ s)) in
+        let pa = (match next () with "V1" -> true | "V0" -> false | s -> raise (Bad ("variant " ^ s))) in
         let sh = sheet () in
         if next () <> "N" then raise (Bad "N");
         let cnt = int () in
@@ -92,7 +94,7 @@ let () =
            | None -> Buffer.add_string buf "nosheet"
            | Some c ->
              Buffer.add_string buf (String.concat "," (List.map (fun i ->
-               match choose key_of pmatch quiet c mode i only with
+               match choose key_of pmatch pa quiet c mode i only with
                | Rule t -> string_of_int (int_of_n t.t_id)
                | Builtin BChildren -> "-1" | Builtin BText -> "-2" | Builtin BNothing -> "-3") nodes)));
           if quiet && not only && pl = 0 then begin
